@@ -29,19 +29,20 @@ macro "cow_step_cases " hs:ident e:ident " => " tac:tactic : tactic => `(tactic|
   (unfold step at $hs:ident
    split at $hs:ident <;>
    (cases $e:ident with
-    | call c => cases c <;> (try simp [stepIdle, stepRdA, stepRdH, stepRdD, stepDr, stepLkCalled, stepLkA, stepLkH, stepLkC,
+    | call c => cases c <;> (try simp [stepIdle, stepRdA, stepRdH, stepRdP, stepRdD, stepDr, stepLkCalled, stepLkA, stepLkH, stepLkC,
         stepLkD, stepLkT, stepLkTD, stepLkExc, stepWHold, stepRelA, stepRelB, stepRelC, stepRelU, stepCn] at $hs:ident) <;> $tac
-    | ret c => cases c <;> (try simp [stepIdle, stepRdA, stepRdH, stepRdD, stepDr, stepLkCalled, stepLkA, stepLkH, stepLkC,
+    | ret c => cases c <;> (try simp [stepIdle, stepRdA, stepRdH, stepRdP, stepRdD, stepDr, stepLkCalled, stepLkA, stepLkH, stepLkC,
         stepLkD, stepLkT, stepLkTD, stepLkExc, stepWHold, stepRelA, stepRelB, stepRelC, stepRelU, stepCn] at $hs:ident) <;> $tac
-    | retGot c v => cases c <;> (try simp [stepIdle, stepRdA, stepRdH, stepRdD, stepDr, stepLkCalled, stepLkA, stepLkH, stepLkC,
+    | retGot c v => cases c <;> (try simp [stepIdle, stepRdA, stepRdH, stepRdP, stepRdD, stepDr, stepLkCalled, stepLkA, stepLkH, stepLkC,
         stepLkD, stepLkT, stepLkTD, stepLkExc, stepWHold, stepRelA, stepRelB, stepRelC, stepRelU, stepCn] at $hs:ident) <;> $tac
-    | exc c => cases c <;> (try simp [stepIdle, stepRdA, stepRdH, stepRdD, stepDr, stepLkCalled, stepLkA, stepLkH, stepLkC,
+    | exc c => cases c <;> (try simp [stepIdle, stepRdA, stepRdH, stepRdP, stepRdD, stepDr, stepLkCalled, stepLkA, stepLkH, stepLkC,
         stepLkD, stepLkT, stepLkTD, stepLkExc, stepWHold, stepRelA, stepRelB, stepRelC, stepRelU, stepCn] at $hs:ident) <;> $tac
-    | lr e' => cases e' <;> (try simp [stepIdle, stepRdA, stepRdH, stepRdD, stepDr, stepLkCalled, stepLkA, stepLkH, stepLkC,
+    | lr e' => cases e' <;> (try simp [stepIdle, stepRdA, stepRdH, stepRdP, stepRdD, stepDr, stepLkCalled, stepLkA, stepLkH, stepLkC,
         stepLkD, stepLkT, stepLkTD, stepLkExc, stepWHold, stepRelA, stepRelB, stepRelC, stepRelU, stepCn, neutral] at $hs:ident) <;>
-        (try (split at $hs:ident <;> simp at $hs:ident)) <;> $tac
-    | _ => (try simp [stepIdle, stepRdA, stepRdH, stepRdD, stepDr, stepLkCalled, stepLkA, stepLkH, stepLkC,
-        stepLkD, stepLkT, stepLkTD, stepLkExc, stepWHold, stepRelA, stepRelB, stepRelC, stepRelU, stepCn] at $hs:ident) <;> $tac)))
+        $tac
+    | _ => (try simp [stepIdle, stepRdA, stepRdH, stepRdP, stepRdD, stepDr, stepLkCalled, stepLkA, stepLkH, stepLkC,
+        stepLkD, stepLkT, stepLkTD, stepLkExc, stepWHold, stepRelA, stepRelB, stepRelC, stepRelU, stepCn] at $hs:ident) <;>
+        (try (split at $hs:ident <;> simp at $hs:ident)) <;> $tac)))
 
 theorem lrGot_same {s : St} {t : Tid} {k : Nat} {x : Side} {l : LR.St} (h : lrGot s t k x = some l) : LR.Same s.lr l := by
   simp only [lrGot, Option.bind_eq_some_iff] at h
@@ -114,6 +115,12 @@ theorem LRStar.inv {P : LR.St → Prop} (hP : ∀ a b u e, P a → LR.step a u e
   induction h with
   | refl => exact ha
   | step h1 _ ih => exact ih (hP _ _ _ _ ha h1)
+
+/-- delegated LR steps of `t` do not move any other thread inside `m_data` -/
+theorem LRStar.pc_other {t u : Tid} {a b : LR.St} (h : LRStar t a b) (hu : u ≠ t) : b.pc u = a.pc u := by
+  induction h with
+  | refl => rfl
+  | step h1 _ ih => rw [ih, LR.step_pc_other h1 hu]
 
 theorem step_lr_inv {P : LR.St → Prop} (hP : ∀ a b u e, P a → LR.step a u e = some b → P b) {s s' : St} {t : Tid} {e : Ev}
     (hs : step s t e = some s') (h : P s.lr) : P s'.lr := (frame_step hs).star.inv hP h
